@@ -15,9 +15,9 @@ kernel afreq: pybrops/popgen/gmat/DenseGenotypeMatrix.py :: DenseGenotypeMatrix.
 kernel apoly: pybrops/popgen/gmat/DenseGenotypeMatrix.py :: DenseGenotypeMatrix.apoly  sha=88177ebafddabc1a  ok
     slice: targets ['out'] -> out
     out of scope (parameter): afreq = self.afreq()
-kernel meh: pybrops/popgen/gmat/DenseGenotypeMatrix.py :: DenseGenotypeMatrix.meh  sha=d8dec49067fb4e7d  ok
+kernel meh: pybrops/popgen/gmat/DenseGenotypeMatrix.py :: DenseGenotypeMatrix.meh  sha=1ef2ec2cb169cb19  FAILED
     slice: targets ['out', 'p', 'rnphase'] -> out
-    out of scope (parameter afreq): `self.afreq()`
+    meh (pybrops/popgen/gmat/DenseGenotypeMatrix.py:DenseGenotypeMatrix.meh): Untranslatable: subscript `p[(p > 0.0) & (p < 1.0)]`
 kernel gtfreq: pybrops/popgen/gmat/DenseGenotypeMatrix.py :: DenseGenotypeMatrix.gtfreq  sha=2d09aa5c62011217  ok
     slice: targets ['out', 'recip'] -> out
     out of scope (parameter gtcount): `self.gtcount()`
@@ -61,12 +61,7 @@ def apoly {α : Type} [OfNat α 0] [OfNat α 1] [LT α] [DecidableLT α] (afreq 
   out
 
 /-- pybrops/popgen/gmat/DenseGenotypeMatrix.py :: DenseGenotypeMatrix.meh; model counterpart: Genotype.mehOf -/
-def meh {α : Type} [Add α] [Sub α] [Mul α] [Div α] [OfNat α 0] [OfNat α 1] (ploidy : α) (nvrnt : α) (afreq : List α) : α :=
-  let p := afreq
-  let out := (Np.dot p (List.map (fun x => 1 - x) p))
-  let rnphase := (ploidy / nvrnt)
-  let out := (out * rnphase)
-  out
+-- NOT TRANSLATED: meh (pybrops/popgen/gmat/DenseGenotypeMatrix.py:DenseGenotypeMatrix.meh): Untranslatable: subscript `p[(p > 0.0) & (p < 1.0)]`
 
 /-- pybrops/popgen/gmat/DenseGenotypeMatrix.py :: DenseGenotypeMatrix.gtfreq; model counterpart: Genotype.gtfreqAt -/
 def gtfreq {α : Type} [Mul α] [Div α] [OfNat α 1] (ntaxa : α) (gtcount : α) : α :=
